@@ -1,5 +1,7 @@
 """As-built dispatch table of ConnectionState::process: which arm handles which
 (frame kind, channel-0-ness, class, method) and what the arm does (ordered events)."""
+import re
+
 import hir as H
 import sym as S
 from core import Unrecognised
@@ -123,7 +125,12 @@ def script_of(events, base_guards=0):
             elif g[2] == 'loop':
                 ctxs.append('loop')
             elif g[2] == 'if':
-                ctxs.append('%s(%s)' % ('if' if g[1] == 'then' else 'unless', g[3]))
+                m = re.match(r'^let (.+?) = (.+)$', g[3])
+                if m:
+                    # `if let PAT = X {..}` and `match X { PAT => .. }` are the same test
+                    ctxs.append('case(%s ~ %s%s)' % (m.group(2), '' if g[1] == 'then' else 'not ', m.group(1)))
+                else:
+                    ctxs.append('%s(%s)' % ('if' if g[1] == 'then' else 'unless', g[3]))
             elif g[2] == 'match':
                 ctxs.append('case(%s)' % g[3])
             elif g[2] == 'closure':
